@@ -622,7 +622,19 @@ func genC10(d *Draw) Case {
 		g.connect(defs, cur, "F", nil, -1)
 		cur = "F"
 	}
-	g.addNode(&Node{ID: "H", Kind: "task", Results: []string{"r_H"}})
+	subHost := !two && d.N(4) == 3
+	if subHost {
+		// the host is an embedded sub-process whose inner task plays the role of "the host's answer"
+		sg := &Graph{ID: "HG"}
+		g.addNode(&Node{ID: "H", Kind: "sub", Sub: sg})
+		sg.addNode(&Node{ID: "HS", Kind: "start"})
+		sg.addNode(&Node{ID: "HT", Kind: "task", Results: []string{"r_HT"}})
+		sg.connect(defs, "HS", "HT", nil, -1)
+		sg.addNode(&Node{ID: "HE", Kind: "end"})
+		sg.connect(defs, "HT", "HE", nil, -1)
+	} else {
+		g.addNode(&Node{ID: "H", Kind: "task", Results: []string{"r_H"}})
+	}
 	g.connect(defs, cur, "H", nil, -1)
 	if two {
 		g.connect(defs, "F", "H", nil, -1)
@@ -692,9 +704,9 @@ func genC10(d *Draw) Case {
 	for t := range tags {
 		tl = append(tl, t)
 	}
-	c.Prog = &Program{Defs: defs, Vars: map[string]any{}, Tags: tl, Desc: fmt.Sprintf("host H with %d boundary event(s), pre-task=%v two-tokens=%v, events %v", nb, pre, two, evd)}
+	c.Prog = &Program{Defs: defs, Vars: map[string]any{}, Tags: tl, Desc: fmt.Sprintf("host H (sub-process=%v) with %d boundary event(s), pre-task=%v two-tokens=%v, events %v", subHost, nb, pre, two, evd)}
 	c.Picks = drawPicks(d, 32)
-	c.Meta = map[string]int{"two": b2i(two), "nb": nb}
+	c.Meta = map[string]int{"two": b2i(two), "nb": nb, "subhost": b2i(subHost)}
 	return c
 }
 
@@ -765,6 +777,7 @@ func checkC10(cc Case, r *simrt.Result) *Outcome {
 	probe(o, "boundary-fired", fired > 0)
 	probe(o, "interrupting-fired", intrFired)
 	probe(o, "two-tokens-in-host", c.Meta["two"] == 1)
+	probe(o, "sub-process-host", c.Meta["subhost"] == 1)
 	probe(o, "event-dropped-host-not-active", tg.M.Dropped > 0)
 	o.Sample = map[string]any{"program": c.Prog.Desc, "requests": tg.Requests, "tags": o.Tags}
 	return o
